@@ -7,6 +7,10 @@
 //!   "ch"   public API only, through `WindowRunner` (consumer = `register()` channel, drained after every push)
 //!   "hook" (only when the case asks for "snap") callback + the add-only `verif_*` hooks: snapshot of the
 //!          active windows after `scope` (before the item is added) and after the step, and `app_time`.
+//!   "both" (when the case lists "drops") ONE window with a `register()` channel consumer AND a `register_callback`
+//!          consumer; the Receiver is dropped just before event number d (d = null: never).  Reported: the callback's
+//!          firings (a dead channel consumer must not change them: the unmodified code logs the failed send and
+//!          continues) and what the channel delivered while its Receiver was alive.
 //! Mode "scope": function-level stream for `scope` alone (successive `verif_scope` calls on a fresh window).
 use kolibrie::rsp::s2r::{CSPARQLWindow, ContentContainer, Report, ReportStrategy, Tick};
 use kolibrie::rsp::window_runner::{WindowRunner, WindowSpec};
@@ -105,6 +109,31 @@ fn run_hook(w: usize, s: usize, evs: &[(u64, u64)]) -> Value {
     json!({"firings": firings, "steps": steps})
 }
 
+fn run_both(w: usize, s: usize, evs: &[(u64, u64)], drop_at: Option<usize>) -> Value {
+    let mut win = new_window(w, s);
+    let mut rx = Some(win.register());
+    let got: Arc<Mutex<Vec<ContentContainer<u64>>>> = Arc::new(Mutex::new(Vec::new()));
+    let g2 = Arc::clone(&got);
+    win.register_callback(Box::new(move |c| g2.lock().unwrap().push(c)));
+    let mut cb: Vec<Value> = Vec::new();
+    let mut ch: Vec<Value> = Vec::new();
+    for (k, (x, t)) in evs.iter().enumerate() {
+        if drop_at == Some(k) {
+            rx = None; // the consumer hangs up: Receiver dropped, sender still registered in the window
+        }
+        win.add_to_window(*x, *t as usize);
+        for c in got.lock().unwrap().drain(..) {
+            cb.push(firing_json(k, *t, &c));
+        }
+        if let Some(r) = &rx {
+            while let Ok(c) = r.try_recv() {
+                ch.push(firing_json(k, *t, &c));
+            }
+        }
+    }
+    json!({"drop": drop_at.map(|d| d as u64), "cb": cb, "ch": ch})
+}
+
 fn run_scope(w: usize, s: usize, tss: &[u64]) -> Value {
     let mut win = new_window(w, s);
     let mut out: Vec<Value> = Vec::new();
@@ -129,11 +158,16 @@ fn main() {
         }
         let evs = events(case);
         let snap = case["snap"].as_bool().unwrap_or(false);
+        let drops: Vec<Option<usize>> = case["drops"]
+            .as_array()
+            .map(|a| a.iter().map(|d| d.as_u64().map(|x| x as usize)).collect())
+            .unwrap_or_default();
         let r = vharness::catch(move || {
             let cb = run_callback(w, s, &evs);
             let ch = run_channel(w, s, &evs);
             let hook = if snap { run_hook(w, s, &evs) } else { Value::Null };
-            json!({"cb": cb, "ch": ch, "hook": hook})
+            let both: Vec<Value> = drops.iter().map(|d| run_both(w, s, &evs, *d)).collect();
+            json!({"cb": cb, "ch": ch, "hook": hook, "both": both})
         });
         match r {
             Ok(v) => v,
